@@ -105,7 +105,8 @@ Reset(k) == [Msg("ResetRelativeTime") EXCEPT !.a = k]
 A(name, a, b) == [name |-> name, a |-> a, b |-> b]
 
 InitNa == [exists |-> FALSE, alive |-> FALSE, eng |-> "none", running |-> FALSE, cfgs |-> FALSE]
-InitNd == [starts |-> 0, stops |-> 0, term |-> 0, sysm |-> 0, stored |-> 0, shut |-> 0, inst |-> "absent", proc |-> "alive"]
+InitNd == [starts |-> 0, stops |-> 0, term |-> 0, sysm |-> 0, stored |-> 0, shut |-> 0, inst |-> "absent", proc |-> "alive",
+           race |-> "none"]
 InitMech == [alive |-> TRUE, status |-> "none", children |-> <<>>, resp |-> 0, ext |-> FALSE]
 InitDisp == [exists |-> FALSE, alive |-> FALSE, pending |-> <<>>, remotes |-> [ip \in RIps |-> <<>>], listening |-> FALSE]
 NoChan(s) == [h \in Hosts(s) |-> <<>>]
@@ -138,13 +139,18 @@ ToD(q, m) == IF DAlive THEN Append(q, m) ELSE q
 (* Mechanic.stop_engine() on entry h: launcher.stop(nodes), flush_metrics(refresh=True), store results per node,        *)
 (* provisioner.cleanup per node configuration.  ProcessLauncher.stop looks every node's process up, terminates it       *)
 (* unless it is already gone, and stores the node's system metrics in any case.                                         *)
-StopNd(h) == [n \in NodeIds(scn) |->
+(* r = "known" | "unknown": whether the race store of that host knows the race (Mechanic._current_race()); with the   *)
+(* file race store it never does on a remote host, and not on the coordinator's host before the race was stored.      *)
+(* Unknown: exceptions.NotFound is caught and logged, no results are added to the race, everything else goes on.       *)
+RaceChoice(h, r) == /\ r \in {"known", "unknown"} /\ (IpOf(scn, h) # 0 => r = "unknown")
+StopNd(h, r) == [n \in NodeIds(scn) |->
                 IF HostOf(scn, n) = h
                 THEN [nd[n] EXCEPT !.stops = IF na[h].running THEN @ + 1 ELSE @,
+                                   !.race = IF na[h].running THEN r ELSE @,
                                    !.term = IF na[h].running /\ nd[n].proc # "early" THEN @ + 1 ELSE @,
                                    !.sysm = IF na[h].running THEN @ + 1 ELSE @,
-                                   !.shut = IF na[h].running THEN @ + 1 ELSE @,
-                                   !.stored = IF na[h].running THEN @ + 1 ELSE @,
+                                   !.shut = IF na[h].running /\ r = "known" THEN @ + 1 ELSE @,
+                                   !.stored = IF na[h].running /\ r = "known" THEN @ + 1 ELSE @,
                                    !.inst = IF na[h].cfgs /\ ~scn.preserve THEN "removed" ELSE @]
                 ELSE nd[n]]
 StoppedNa(h) == [na[h] EXCEPT !.eng = "none", !.running = FALSE, !.cfgs = FALSE]
@@ -362,11 +368,12 @@ NRecvStartNodes(h, o) ==
     /\ act' = A("NRecvStartNodes", h, o)
 
 (* receiveUnrecognizedMessage, StopNodes *)
-NRecvStopNodes(h) ==
+NRecvStopNodes(h, r) ==
     /\ NAlive(h) /\ m2n[h] # <<>> /\ Head(m2n[h]).k = "StopNodes"
+    /\ IF na[h].eng = "set" THEN RaceChoice(h, r) ELSE r = ""
     /\ m2n' = [m2n EXCEPT ![h] = Tail(@)]
     /\ IF na[h].eng = "set"
-       THEN /\ nd' = StopNd(h)
+       THEN /\ nd' = StopNd(h, r)
             /\ ho' = [ho EXCEPT ![h] = @ + 1]
             /\ na' = [na EXCEPT ![h] = StoppedNa(h)]
             /\ n2m' = [n2m EXCEPT ![h] = ToM(@, Msg("NodesStopped"))]
@@ -374,7 +381,7 @@ NRecvStopNodes(h) ==
             /\ n2m' = [n2m EXCEPT ![h] = ToM(@, Msg("BenchmarkFailure"))]
             /\ UNCHANGED <<nd, ho, na>>
     /\ UNCHANGED <<scn, plan, rc2m, m2d, d2m, sys2d, d2n, n2d, rcbox, mtimers, mech, disp, env>>
-    /\ act' = A("NRecvStopNodes", h, "")
+    /\ act' = A("NRecvStopNodes", h, r)
 
 (* receiveUnrecognizedMessage, ResetRelativeTime: resets the metrics store's clock, nothing the protocol depends on *)
 NRecvReset(h) ==
@@ -392,18 +399,24 @@ NRecvFailure(h) ==
     /\ act' = A("NRecvFailure", h, "")
 
 (* ActorExitRequest (from M after EngineStopped, or from the dying parent D): stop the engine if still there, die *)
-NRecvExit(h, src) ==
+ExitTag(src, r) == CASE r = "" -> src
+                     [] src = "M" /\ r = "known" -> "M+known"
+                     [] src = "M" /\ r = "unknown" -> "M+unknown"
+                     [] src = "D" /\ r = "known" -> "D+known"
+                     [] src = "D" /\ r = "unknown" -> "D+unknown"
+NRecvExit(h, src, r) ==
     /\ NAlive(h)
     /\ \/ src = "M" /\ m2n[h] # <<>> /\ Head(m2n[h]).k = "Exit"
        \/ src = "D" /\ d2n[h] # <<>> /\ Head(d2n[h]).k = "Exit"
+    /\ IF na[h].eng = "set" THEN RaceChoice(h, r) ELSE r = ""
     /\ IF na[h].eng = "set"
-       THEN nd' = StopNd(h) /\ ho' = [ho EXCEPT ![h] = @ + 1]
+       THEN nd' = StopNd(h, r) /\ ho' = [ho EXCEPT ![h] = @ + 1]
        ELSE UNCHANGED <<nd, ho>>
     /\ na' = [na EXCEPT ![h] = [StoppedNa(h) EXCEPT !.alive = FALSE]]
     /\ m2n' = [m2n EXCEPT ![h] = <<>>] /\ d2n' = [d2n EXCEPT ![h] = <<>>]
     /\ n2d' = [n2d EXCEPT ![h] = ToD(@, Msg("ChildActorExited"))]
     /\ UNCHANGED <<scn, plan, rc2m, m2d, d2m, sys2d, n2m, rcbox, mtimers, mech, disp, env>>
-    /\ act' = A("NRecvExit", h, src)
+    /\ act' = A("NRecvExit", h, ExitTag(src, r))
 
 (* WakeupMessage: periodic flush of the metrics store (not refresh), re-armed; no effect on anything modelled. *)
 (* Only used by trace validation, not part of Next.                                                           *)
@@ -534,8 +547,9 @@ MaxHosts == 3
 ActorStep == \/ MRecvStartEngine \/ MRecvReset \/ MWakeup \/ MRecvFailureD \/ MRecvStopEngine \/ MRecvExit
              \/ DRecvStartEngine \/ DRecvConv(LeaveFix) \/ DRecvExit
              \/ \E h \in Hosts(scn) : \/ MRecvNodesStarted(h) \/ MRecvFailureN(h) \/ MRecvNodesStopped(h) \/ DRecvChildExited(h)
-                                      \/ NRecvStartNodes(h, "ok") \/ NRecvStopNodes(h) \/ NRecvReset(h) \/ NRecvFailure(h)
-                                      \/ NRecvExit(h, "M") \/ NRecvExit(h, "D")
+                                      \/ NRecvStartNodes(h, "ok") \/ NRecvReset(h) \/ NRecvFailure(h)
+                                      \/ \E r \in {"known", "unknown", ""} : \/ NRecvStopNodes(h, r)
+                                                                           \/ NRecvExit(h, "M", r) \/ NRecvExit(h, "D", r)
 (* what the environment is assumed to do eventually: race control goes on, awaited daemons join *)
 EnvProgress == RcStop \/ RcTeardown \/ RcRestart \/ \E ip \in RIps : RemoteJoins(ip)
 Progress == ActorStep \/ EnvProgress
@@ -550,10 +564,10 @@ Next == \/ MRecvStartEngine \/ MRecvReset \/ MWakeup \/ MRecvFailureD \/ MRecvSt
         \/ \E h \in Hosts(scn) : MRecvNodesStopped(h)
         \/ \E h \in Hosts(scn) : DRecvChildExited(h)
         \/ \E h \in Hosts(scn) : \E o \in {"ok", "create", "launch"} : NRecvStartNodes(h, o)
-        \/ \E h \in Hosts(scn) : NRecvStopNodes(h)
+        \/ \E h \in Hosts(scn) : \E r \in {"known", "unknown", ""} : NRecvStopNodes(h, r)
         \/ \E h \in Hosts(scn) : NRecvReset(h)
         \/ \E h \in Hosts(scn) : NRecvFailure(h)
-        \/ \E h \in Hosts(scn) : \E src \in {"M", "D"} : NRecvExit(h, src)
+        \/ \E h \in Hosts(scn) : \E src \in {"M", "D"} : \E r \in {"known", "unknown", ""} : NRecvExit(h, src, r)
         \/ RcStop \/ RcTeardown \/ RcRestart \/ \E k \in {0, 1} : RcReset(k)
         \/ MRecvStaleAck
         \/ \E ip \in RIps : RemoteJoins(ip)
@@ -575,8 +589,9 @@ StopAtMostOnce == \A n \in NodeIds(scn) : nd[n].stops <= 1
 (* EngineStopped only after every started node was stopped exactly once (handled by one stop; terminated unless its   *)
 (* process was already gone), its system metrics were stored and its host's metrics store flushed, its results       *)
 (* stored, and its installation removed unless preserve is set                                                       *)
+(* (the results are added to the race only where the host's race store knows the race; otherwise that is logged)       *)
 NodeDone(n) == /\ nd[n].stops = 1 /\ (nd[n].proc # "early" => nd[n].term = 1)
-               /\ nd[n].sysm >= 1 /\ nd[n].stored >= 1 /\ ho[HostOf(scn, n)] >= 1
+               /\ nd[n].sysm >= 1 /\ (nd[n].race = "known" => nd[n].stored >= 1) /\ ho[HostOf(scn, n)] >= 1
                /\ nd[n].inst = IF scn.preserve THEN "present" ELSE "removed"
 StoppedOnlyWhenAll == (Stopped /\ ~scn.ext) => \A n \in NodeIds(scn) : nd[n].starts >= 1 => NodeDone(n)
 
